@@ -1,6 +1,7 @@
 package common
 
 import (
+	"encoding/json"
 	"errors"
 
 	"github.com/protolambda/ztyp/codec"
@@ -8,6 +9,13 @@ import (
 )
 
 type GweiList []Gwei
+
+func (li GweiList) MarshalJSON() ([]byte, error) {
+	if li == nil {
+		return []byte("[]"), nil // encode as empty list, not null
+	}
+	return json.Marshal([]Gwei(li))
+}
 
 func (a *GweiList) Deserialize(spec *Spec, dr *codec.DecodingReader) error {
 	return dr.List(func() codec.Deserializable {
